@@ -592,6 +592,183 @@ fn check_shape(shape: &[usize]) -> ShapeResult {
     res
 }
 
+/// The other public entry points of `Array` (and the spectrum wrappers around them) on one shape:
+/// constructors, mutable accessors, the indexing operators and their panicking siblings.
+fn check_api(shape: &[usize]) -> Result<(), String> {
+    use sfs_core::array::Shape;
+    let d = shape.len();
+    let reference = RefArray::from_fn(shape, |f, _| f as f64);
+    let cells = reference.data.len();
+    let all_idx = indices(shape);
+    // constructors: the same array whichever way it is built, and whichever way the shape is given
+    let a: Array<f64> = Array::new(reference.data.clone(), shape.to_vec()).map_err(|e| format!("new: {e}"))?;
+    let from_iter = Array::from_iter((0..cells).map(|f| f as f64), shape.to_vec()).map_err(|e| format!("from_iter: {e}"))?;
+    let from_shape_struct = Array::new(reference.data.clone(), Shape(shape.to_vec())).map_err(|e| format!("new(Shape): {e}"))?;
+    if from_iter != a || from_shape_struct != a {
+        return Err("Array::from_iter / Array::new(.., Shape) differ from Array::new(.., Vec)".into());
+    }
+    if d == 1 {
+        let by_usize = Array::new(reference.data.clone(), shape[0]).map_err(|e| format!("new(usize): {e}"))?;
+        let by_array = Array::new(reference.data.clone(), [shape[0]]).map_err(|e| format!("new([usize; 1]): {e}"))?;
+        if by_usize != a || by_array != a {
+            return Err("a one-axis shape given as usize / [usize; 1] gives another array".into());
+        }
+    }
+    let filled = Array::from_element(2.5f64, shape.to_vec());
+    if filled.shape().to_vec() != shape || filled.as_slice().len() != cells || filled.iter().any(|v| *v != 2.5) {
+        return Err(format!("from_element: shape {:?}, {} values", filled.shape().to_vec(), filled.as_slice().len()));
+    }
+    let zeros: Array<f64> = Array::from_zeros(shape.to_vec());
+    if zeros.shape().to_vec() != shape || zeros.iter().any(|v| *v != 0.0) || zeros.elements() != cells {
+        return Err("from_zeros is not an all-zero array of the shape".into());
+    }
+    // a wrong number of values is an error for every constructor that takes values
+    for n in [cells + 1, cells.saturating_sub(1)] {
+        if n != cells && Array::new(vec![0.0f64; n], shape.to_vec()).is_ok() {
+            return Err(format!("Array::new accepts {n} values for shape {shape:?}"));
+        }
+        if n != cells && Array::from_iter((0..n).map(|f| f as f64), shape.to_vec()).is_ok() {
+            return Err(format!("Array::from_iter accepts {n} values for shape {shape:?}"));
+        }
+    }
+    if a.dimensions() != d || a.elements() != cells || a.shape().dimensions() != d || a.shape().elements() != cells {
+        return Err("dimensions() / elements() of the array or its shape are wrong".into());
+    }
+    let shown = format!("{}", a.shape());
+    let expect_shown = shape.iter().map(|n| n.to_string()).collect::<Vec<_>>().join("/");
+    if shown != expect_shown {
+        return Err(format!("Display of the shape is {shown:?}, expected {expect_shown:?}"));
+    }
+    // indexing operators agree with get on every index; get_mut / IndexMut / iter_mut / as_mut_slice
+    // write exactly the addressed element
+    let mut m = a.clone();
+    for (flat, idx) in all_idx.iter().enumerate() {
+        if a[idx] != flat as f64 || a[idx.as_slice()] != flat as f64 {
+            return Err(format!("a[{idx:?}] = {}, expected {flat}", a[idx]));
+        }
+        match m.get_mut(idx) {
+            Some(v) => *v += 1000.0,
+            None => return Err(format!("get_mut({idx:?}) is None")),
+        }
+        if m.as_slice()[flat] != flat as f64 + 1000.0 {
+            return Err(format!("get_mut({idx:?}) did not address flat position {flat}"));
+        }
+        m[idx] += 1000.0;
+        if m.as_slice()[flat] != flat as f64 + 2000.0 || m.get(idx).copied() != Some(flat as f64 + 2000.0) {
+            return Err(format!("IndexMut at {idx:?} did not address flat position {flat}"));
+        }
+    }
+    let changed = m.as_slice().iter().enumerate().filter(|(f, v)| **v != *f as f64 + 2000.0).count();
+    if changed != 0 {
+        return Err(format!("{changed} elements were not written exactly twice through get_mut and IndexMut"));
+    }
+    for (f, v) in m.iter_mut().enumerate() {
+        *v = f as f64 * 2.0;
+    }
+    if m.as_slice().iter().enumerate().any(|(f, v)| *v != f as f64 * 2.0) {
+        return Err("iter_mut does not visit the elements in row-major order".into());
+    }
+    for (f, v) in m.as_mut_slice().iter_mut().enumerate() {
+        *v = f as f64;
+    }
+    if m != a {
+        return Err("as_mut_slice does not expose the elements in row-major order".into());
+    }
+    // out of range: get_mut is None, the operators and index_axis panic, nothing is written
+    for a_ in 0..d {
+        let mut idx = vec![0usize; d];
+        idx[a_] = shape[a_];
+        if m.get_mut(&idx).is_some() {
+            return Err(format!("get_mut({idx:?}) is Some although axis {a_} has {} positions", shape[a_]));
+        }
+        let (a2, i2) = (a.clone(), idx.clone());
+        if catch(move || a2[&i2]).is_ok() {
+            return Err(format!("a[{idx:?}] does not panic although axis {a_} has {} positions", shape[a_]));
+        }
+        let a3 = a.clone();
+        let n = shape[a_];
+        if catch(move || a3.index_axis(Axis(a_), n).iter().count()).is_ok() {
+            return Err(format!("index_axis(Axis({a_}), {n}) does not panic"));
+        }
+        for pos in 0..shape[a_] {
+            let v1: Vec<f64> = a.index_axis(Axis(a_), pos).iter().copied().collect();
+            let v2: Vec<f64> = a.get_axis(Axis(a_), pos).ok_or("get_axis is None in range")?.iter().copied().collect();
+            let expect: Vec<f64> = all_idx.iter().filter(|i| i[a_] == pos).map(|i| reference.get(i)).collect();
+            if v1 != expect || v2 != expect {
+                return Err(format!("index_axis / get_axis (axis {a_}, position {pos}) = {v1:?} / {v2:?}, expected {expect:?}"));
+            }
+        }
+    }
+    if m.get_mut(vec![0usize; d + 1]).is_some() || (d > 0 && m.get_mut(vec![0usize; d - 1]).is_some()) {
+        return Err("get_mut accepts an index of the wrong length".into());
+    }
+    // sums of arrays with negative, infinite and NaN entries are what adding the views by hand gives
+    let odd_values = [-2.5f64, 3.0, f64::NEG_INFINITY, -0.0, 1.0, f64::NAN, -7.0, 2.0];
+    let odd: Array<f64> = Array::new((0..cells).map(|f| odd_values[f % odd_values.len()]).collect::<Vec<_>>(), shape.to_vec()).map_err(|e| format!("new: {e}"))?;
+    let negative: Array<f64> = Array::new((0..cells).map(|f| -(f as f64) - 0.5).collect::<Vec<_>>(), shape.to_vec()).map_err(|e| format!("new: {e}"))?;
+    for arr in [&odd, &negative] {
+        for a_ in 0..d {
+            let s = arr.sum(Axis(a_));
+            let mut by_hand = vec![0.0f64; cells / shape[a_]];
+            for pos in 0..shape[a_] {
+                for (acc, v) in by_hand.iter_mut().zip(arr.index_axis(Axis(a_), pos).iter()) {
+                    *acc += v;
+                }
+            }
+            let same = s.as_slice().len() == by_hand.len() && s.as_slice().iter().zip(&by_hand).all(|(x, y)| (x.is_nan() && y.is_nan()) || x == y);
+            if !same {
+                return Err(format!("sum(Axis({a_})) of an array with negative / non-finite entries = {:?}, adding its views gives {by_hand:?}", s.as_slice()));
+            }
+        }
+    }
+    // summing the only axis away leaves an array without axes that holds one value
+    if d == 1 {
+        let t = a.sum(Axis(0));
+        let total: f64 = reference.data.iter().sum();
+        if t.dimensions() != 0 || t.elements() != 1 || t.as_slice() != [total] || t.get(Vec::<usize>::new()).copied() != Some(total) || t.iter_indices().count() != 1 {
+            return Err(format!("sum(Axis(0)) of a one-axis array: {} axes, {} elements, values {:?}, get([]) = {:?}", t.dimensions(), t.elements(), t.as_slice(), t.get(Vec::<usize>::new())));
+        }
+        let none: Array<f64> = Array::from_element(4.5, Vec::<usize>::new());
+        if none.elements() != 1 || none.as_slice() != [4.5] || Array::new(vec![1.0f64], Vec::<usize>::new()).is_err() || Array::new(Vec::<f64>::new(), Vec::<usize>::new()).is_ok() {
+            return Err("an array without axes does not hold exactly one value".into());
+        }
+    }
+    // the spectrum wrappers
+    let scs = Scs::new(reference.data.clone(), shape.to_vec()).map_err(|e| format!("Scs::new: {e}"))?;
+    let by_range = Scs::from_range(0..cells, shape.to_vec()).map_err(|e| format!("Scs::from_range: {e}"))?;
+    if by_range.inner() != scs.inner() || scs.inner() != &a {
+        return Err("Scs::from_range(0..n, shape) differs from Scs::new with the same values".into());
+    }
+    if Scs::from_range(0..cells + 1, shape.to_vec()).is_ok() {
+        return Err("Scs::from_range accepts a range longer than the shape".into());
+    }
+    if scs.dimensions() != d || scs.elements() != cells || scs.shape().to_vec() != shape {
+        return Err("dimensions() / elements() / shape() of the spectrum are wrong".into());
+    }
+    let z = Scs::from_zeros(shape.to_vec());
+    if z.shape().to_vec() != shape || z.inner().iter().any(|v| *v != 0.0) {
+        return Err("Scs::from_zeros is not an all-zero spectrum of the shape".into());
+    }
+    if d == 1 {
+        let v = Scs::from_vec(reference.data.clone());
+        if v.inner() != &a {
+            return Err("Scs::from_vec differs from Scs::new with a one-axis shape".into());
+        }
+    }
+    let mut ms = scs.clone();
+    for (flat, idx) in all_idx.iter().enumerate() {
+        if scs[idx] != flat as f64 {
+            return Err(format!("spectrum[{idx:?}] = {}, expected {flat}", scs[idx]));
+        }
+        ms[idx] = -1.0 - flat as f64;
+        ms.inner_mut()[idx] -= 1.0;
+    }
+    if ms.inner().as_slice().iter().enumerate().any(|(f, v)| *v != -2.0 - f as f64) {
+        return Err("IndexMut / inner_mut on the spectrum do not address the element named".into());
+    }
+    Ok(())
+}
+
 /// `target.clone_from(&source)` and `source.clone()` for arrays of two shapes: the result must be
 /// indistinguishable from the source (shape, data, every index, every axis view, axis sums).
 fn check_clone_pair(from: &[usize], into: &[usize]) -> Result<(), String> {
@@ -735,6 +912,31 @@ pub fn run(tier: Tier) -> i32 {
             extra: vec![],
         });
     }
+    // the rest of the public interface: constructors, mutable accessors, indexing operators
+    {
+        let ashapes: Vec<Vec<usize>> = shapes(4, 1, 4, usize::MAX);
+        let res = crate::par::par_map(ashapes.len(), |i| {
+            let sh = ashapes[i].clone();
+            match catch(move || check_api(&sh)) {
+                Ok(Ok(())) => None,
+                Ok(Err(e)) => Some(("wrong".to_string(), e)),
+                Err(p) => Some((format!("panic|{}", panic_class(&p)), p)),
+            }
+        });
+        for (sh, r) in ashapes.iter().zip(res) {
+            if let Some((k, e)) = r {
+                rep.violation(format!("C19|lib|api|{k}|{}axes", sh.len()), format!("shape {sh:?}: {e}"), J::obj([("kind", J::s("c19-api")), ("shape", J::usizes(sh))]));
+            }
+        }
+        rep.part(Part {
+            name: "lib: constructors, mutable accessors, indexing operators".into(),
+            evaluations: ashapes.len() as u64,
+            nontrivial: ashapes.len() as u64,
+            note: format!("{} shapes with 1..4 axes of lengths 1..4: new / from_iter / from_element / from_zeros (shape as Vec, Shape, array, usize) and their count errors, Display of the shape, Index / IndexMut / get_mut / iter_mut / as_mut_slice against flat positions for every index, out-of-range get_mut = None and panicking operators, index_axis against get_axis for every (axis, position), sums of arrays with negative / infinite / NaN entries against adding the views, the array without axes left by summing the only axis, Scs::new / from_range / from_vec / from_zeros / Index / IndexMut / inner_mut", ashapes.len()),
+            exhaustive: true,
+            extra: vec![],
+        });
+    }
     // clone / clone_from between arrays of every ordered pair of shapes (equal and different element
     // counts, equal counts with different shapes): no state of the target may survive
     {
@@ -819,6 +1021,14 @@ pub fn replay(case: &J) -> Option<Vec<String>> {
             Ok(Ok(())) => vec![],
             Ok(Err(e)) => vec![format!("C19|lib|huge-array :: {e}")],
             Err(p) => vec![format!("C19|lib|huge-array|panic :: {p}")],
+        });
+    }
+    if case.get("kind").and_then(|k| k.as_str()) == Some("c19-api") {
+        let sh = shape.clone();
+        return Some(match catch(move || check_api(&sh)) {
+            Ok(Ok(())) => vec![],
+            Ok(Err(e)) => vec![format!("C19|lib|api|wrong :: {e}")],
+            Err(p) => vec![format!("C19|lib|api|panic :: {p}")],
         });
     }
     if case.get("kind").and_then(|k| k.as_str()) == Some("c19-clone") {
